@@ -138,6 +138,21 @@ def opCodec : List String → Option String
       let ms := match model with | .ok m => s!"{toHex m.dump} len={m.hdr.length}" | .error e => s!"err:{e} len=0"
       some s!"model={ms} spec={spec}"
     | _ => some "bad-desc"
+  | "construct" :: name :: toks =>
+    match entryOf name, parseVal toks with
+    | some e, some (v, []) =>
+      let model := match construct e.kind e.values v with
+        | .ok d => "ok:" ++ toHex d
+        | .err (.lib _) => "err:lib"
+        | .err (.std _) => "err:std"
+        | .unmodelled => "unmodelled"
+      let spec := match v with
+        | .bool b => if e.kind == Kind.unsigned32 || e.kind == Kind.unsigned64
+                     then (match dataOf e.kind e.values (.int (if b then 1 else 0)) with | some d => toHex d | none => "none")
+                     else "none"
+        | x => match dataOf e.kind e.values x with | some d => toHex d | none => "none"
+      some s!"model={model} spec={spec}"
+    | _, _ => some "bad-desc"
   | ["load", h] =>
     match loadAvps Gen.dictionary (parseHex h) with
     | .ok as => some ("ok " ++ " ".intercalate (as.map lavpStr))
